@@ -15,7 +15,12 @@ extension`.  C13.STICKY: extend_sticky / extend_sticky_set insert only on the No
 lookup and call the duplicate callback on the Some edge (first definition wins regardless of how
 sources are split).  C13.ORPHAN: orphan extensions are queued in an insertion-ordered map with
 push (source order) and consumed with shift_remove.  C13.FILEID: each parse entry allocates
-exactly one FileId::new() per source text.  Does not decide equality of diagnostics between
+exactly one FileId::new() per source text.  C13.CARRY: the per-source methods of both builders
+(add_ast_document_not_adding_sources) keep no history of their own: no named local that is
+reassigned or mutably borrowed inside the definitions loop feeds a branch of that loop (such a flag
+forgets, at every new source, what earlier sources contributed), and no field of the builder is
+written outside the definitions loop (a per-call reset).  State that decides a diagnostic must live
+in the builder and survive from one source to the next.  Does not decide equality of diagnostics between
 sequential and concatenated builds.
 """
 
@@ -211,8 +216,76 @@ def rule_fileid(prog, rep):
         rep.instance("C13.FILEID", "other FileId::new() caller: %s" % o)
 
 
+CARRY_EXEMPT_TY = [
+    (r"^std::slice::Iter<|::Iter<|::IntoIter<", "the loop iterator itself"),
+    (r"(^|::)Entry<", "a map entry of the builder's own map (borrow of builder state, not a copy)"),
+    (r"from_ast::BuildErrors<", "wrapper around the builder's DiagnosticList plus a path stack that is empty between definitions"),
+    (r"^&", "a reference (the state it points to lives elsewhere)"),
+]
+
+
+def rule_carry(prog, rep):
+    rep.floor("C13.CARRY", 2)
+    from ..flow import derives, loop_body, loop_headers
+    for pat in (r"^apollo_compiler::executable::from_ast::ExecutableDocumentBuilder::<.*>::add_ast_document_not_adding_sources$",
+                r"^apollo_compiler::schema::from_ast::SchemaBuilder::add_ast_document_not_adding_sources$"):
+        fn = prog.inline(prog.fn(pat))
+        hs = loop_headers(fn)
+        # the definitions loop: the outermost for-loop over `document.definitions`
+        outer = [h for h in hs if "arg2.definitions" in fn.sym(hs[h][2].args[0]) and "Iterator>::next" not in fn.sym(hs[h][2].args[0])]
+        if len(outer) != 1:
+            raise AnchorError("%s: loop over document.definitions not found" % fn.name)
+        body = set(loop_body(fn, outer[0], hs))
+        ok = True
+        # (1) loop-carried named locals that feed a branch
+        cand = {}
+        for l, ds in fn.defs().items():
+            nm = fn.local_name(l)
+            if not nm or l <= fn.argc:
+                continue
+            whole = [d for d in ds if not d[3]]
+            in_body = [d for d in whole if d[0] in body]
+            before = [d for d in whole if d[0] not in body]
+            carried = (in_body and before) or (l in fn.mut_borrowed() and before and not in_body)
+            if not carried:
+                continue
+            ty = fn.local_ty(l)
+            if any(re.search(r, ty) for r, _why in CARRY_EXEMPT_TY):
+                continue
+            cand[l] = nm
+        flagged = {}
+        if cand:
+            names = set("var:%s" % n for n in cand.values())
+            for b in sorted(body):
+                t = fn.term(b)
+                if t[0] != "switch":
+                    continue
+                roots = derives(fn, t[1])[0]
+                hit = [r for r in roots if any(r == n or r.startswith(n + ".") for n in names)]
+                for r in hit:
+                    flagged.setdefault(r.split(".")[0][4:], b)
+        for nm, b in sorted(flagged.items()):
+            ok = False
+            rep.finding("C13.CARRY", fn.name, "local-state:" + nm,
+                        "the local `%s` is state carried from one definition to the next and decides a branch of the definitions loop, but it is created anew for every source added to the builder: what earlier sources contributed is forgotten, so adding sources one by one differs from adding their concatenation" % nm, fn.loc())
+        # (2) builder fields written outside the definitions loop
+        for b in sorted(fn.live_blocks()):
+            if b in body:
+                continue
+            for st in fn.stmts(b):
+                if st[0] == "=" and st[1][1]:
+                    d = fn.dest_s(st[1])
+                    if re.match(r"^arg1\.", d):
+                        ok = False
+                        rep.finding("C13.CARRY", fn.name, "reset:" + d,
+                                    "builder state `%s` is written on every call, outside the loop over definitions: it is reset each time a source is added" % d.replace("arg1.", "self."), fn.loc())
+        if ok:
+            rep.instance("C13.CARRY", "%s: no loop-carried named local decides a branch (%d loop-carried locals of non-exempt type looked at), no builder field is written outside the definitions loop" % (fn.name.split("::")[-3] if "::<" in fn.name else fn.name.split("::")[-2], len(cand)))
+
+
 def run(prog, rep):
     rule_mismatch(prog, rep)
     rule_sticky(prog, rep)
     rule_orphan(prog, rep)
     rule_fileid(prog, rep)
+    rule_carry(prog, rep)
